@@ -379,15 +379,22 @@ def emit_hints(text):
          "   library's exporter under each hint configuration and read back with the library's reader (tools/t4_probe.cpp). -/",
          "namespace CdnsVerif.Generated", "",
          "/-- (query_response_hints, query_response_signature_hints, rr_hints, other_data_hints, which members came back:",
-         "    the 39 members of GenericQueryResponse in declaration order, ttl and rdata of the first query answer,",
-         "    a malformed message, an address event) -/",
-         "def hintProbes : List (Nat × Nat × Nat × Nat × List Bool) := ["]
+         "    bit i (least significant first) = the i-th of: the 39 members of GenericQueryResponse in declaration order, ttl and rdata",
+         "    of the first query answer, a malformed message, an address event) -/"]
     rows = []
     for line in text.splitlines():
         p = line.split()
         if p[0] == "HINT":
-            rows.append(f"  ({p[1]}, {p[2]}, {p[3]}, {p[4]}, [" + ", ".join("true" if c == "1" else "false" for c in p[5]) + "])")
-    L.append(",\n".join(rows)); L.append("]"); L.append(""); L.append("end CdnsVerif.Generated")
+            bits = sum(1 << i for i, c in enumerate(p[5]) if c == "1")
+            rows.append(f"  ({p[1]}, {p[2]}, {p[3]}, {p[4]}, {bits})")
+    names = []
+    for k in range(0, len(rows), 40):
+        n = f"hintProbes{k // 40}"
+        names.append(n)
+        L.append(f"def {n} : List (Nat × Nat × Nat × Nat × Nat) := [")
+        L.append(",\n".join(rows[k:k + 40])); L.append("]")
+    L.append("def hintProbes : List (Nat × Nat × Nat × Nat × Nat) := " + " ++ ".join(names))
+    L.append(""); L.append("end CdnsVerif.Generated")
     return "\n".join(L) + "\n"
 
 
